@@ -15,6 +15,7 @@ import (
 	"sort"
 	"strings"
 	"sync"
+	"time"
 
 	"github.com/ipld/go-ipld-prime/datamodel"
 	"github.com/ipld/go-ipld-prime/node/basicnode"
@@ -185,7 +186,8 @@ type Cav struct {
 	Link ipld.Link
 	Max  *int64
 	Tag  *string
-	Tags []string // nil = unset
+	Tags []string          // nil = unset
+	Hdr  map[string]string // nil = unset; a map-valued caveat
 	// extra, ill-typed entries for malformed-caveat cases
 	Extra map[string]datamodel.Node
 }
@@ -212,6 +214,20 @@ func (c Cav) ToIPLD() (datamodel.Node, error) {
 			la.AssembleValue().AssignString(t)
 		}
 		la.Finish()
+	}
+	if c.Hdr != nil {
+		ma.AssembleKey().AssignString("hdr")
+		hk := make([]string, 0, len(c.Hdr))
+		for k := range c.Hdr {
+			hk = append(hk, k)
+		}
+		sort.Strings(hk)
+		ha, _ := ma.AssembleValue().BeginMap(int64(len(hk)))
+		for _, k := range hk {
+			ha.AssembleKey().AssignString(k)
+			ha.AssembleValue().AssignString(c.Hdr[k])
+		}
+		ha.Finish()
 	}
 	keys := make([]string, 0, len(c.Extra))
 	for k := range c.Extra {
@@ -294,6 +310,20 @@ func (cavReader) Read(input any) (Cav, failure.Failure) {
 				}
 				c.Tags = append(c.Tags, s)
 			}
+		case "hdr":
+			if v.Kind() != datamodel.Kind_Map {
+				return Cav{}, schema.NewSchemaError("hdr: not a map")
+			}
+			c.Hdr = map[string]string{}
+			for mi := v.MapIterator(); !mi.Done(); {
+				hk, hv, _ := mi.Next()
+				ks2, _ := hk.AsString()
+				vs, err := hv.AsString()
+				if err != nil {
+					return Cav{}, schema.NewSchemaError("hdr: not strings")
+				}
+				c.Hdr[ks2] = vs
+			}
 		default:
 			return Cav{}, schema.NewSchemaError("unknown field " + ks)
 		}
@@ -348,6 +378,16 @@ func stdDerives(claimed, delegated ucan.Capability[Cav]) bool {
 	}
 	if d.Tags != nil && (c.Tags == nil || !subset(c.Tags, d.Tags)) {
 		return false
+	}
+	if d.Hdr != nil {
+		if c.Hdr == nil {
+			return false
+		}
+		for k, v := range c.Hdr {
+			if dv, ok := d.Hdr[k]; !ok || dv != v {
+				return false
+			}
+		}
 	}
 	return true
 }
@@ -783,7 +823,7 @@ func (w *World) vctx(obs *Obs) validator.ValidationContext[Cav] {
 func (w *World) Run() *Obs {
 	obs := &Obs{}
 	inv := w.built[w.Inv].Dlg
-	obs.NowBefore = ucan.Now()
+	obs.NowBefore = int(time.Now().Unix()) // the wall clock itself, not the library's reading of it
 	if p := recovered(func() {
 		a, x := validator.Access(inv, w.vctx(obs))
 		if x == nil && a != nil {
@@ -799,7 +839,7 @@ func (w *World) Run() *Obs {
 	}); p != nil {
 		obs.Panic = fmt.Sprint(p)
 	}
-	obs.NowAfter = ucan.Now()
+	obs.NowAfter = int(time.Now().Unix())
 	w.Ctx.Now = obs.NowBefore
 	return obs
 }
@@ -843,6 +883,18 @@ func (w *World) coqCval(n datamodel.Node) string {
 			items = append(items, hxs(s))
 		}
 		return "(VList [" + strings.Join(items, "; ") + "])"
+	case datamodel.Kind_Map:
+		var items []string
+		for mi := n.MapIterator(); !mi.Done(); {
+			k, v, _ := mi.Next()
+			ks, _ := k.AsString()
+			vs, err := v.AsString()
+			if err != nil {
+				return "VOtherKind"
+			}
+			items = append(items, fmt.Sprintf("(%s, %s)", hxs(ks), hxs(vs)))
+		}
+		return "(VMap [" + strings.Join(items, "; ") + "])"
 	}
 	return "VOtherKind"
 }
